@@ -1,9 +1,9 @@
-import os, json
+import os
 META = dict(
     engine='cosched',
     technique='stateless model checking: preemption-bounded exhaustive schedule enumeration (CHESS) of the real local termination detector driven by token-discipline scripts',
-    level_text='Every schedule with <= b preemptions (b=2 quick, 3 thorough; scheduling points = every instrumented access to nb_tasks, nb_pending_actions and tdm.monitor) of fourteen 2-3 thread scripts (PTG start-up with spawning, zero crossings while busy, ready() against the last task/action, set_nb_tasks/set_runtime_actions variants, state pollers; and DTD-like insertion before ready) is executed on the real module; in each the termination callback must run exactly once, only after ready() and with no unit of work held and both counters zero, taskpool_state must not return TERMINATED before the callback returned, and termination must have been reported when all threads are done.',
-    level_note='Sequential consistency at instrumented accesses; <= 3 threads, <= 4 operations per thread; leg "contract" respects the strict usage contract (work is added only by a holder of work; set_* only by the owner of all units), leg "preready" adds work before ready() without holding a unit, as the DTD interface does. Weak-memory effects and the object reference count of the taskpool are outside the check.',
+    level_text='Every schedule with <= b preemptions (b=2 quick, 3 thorough; scheduling points = every instrumented access to nb_tasks, nb_pending_actions and tdm.monitor) of 2-3 thread scripts (10 quick, 14 thorough: PTG start-up with spawning, zero crossings while busy, ready() against the last task/action, set_nb_tasks/set_runtime_actions variants, state pollers, DTD-like insertion before ready) is executed on the real module; in each the termination callback must run exactly once, only after ready() and with no unit of work held and both counters zero, taskpool_state must not return TERMINATED before the callback returned, and termination must have been reported when all threads are done.',
+    level_note='Sequential consistency at instrumented accesses; <= 3 threads, <= 4 operations per thread; scripts respect the usage contract (after ready() work is added only by a holder of work; before ready() anybody may add work, as the DTD interface does; set_* only by the owner of all units of that counter). Weak-memory effects and the object reference count of the taskpool are outside the check.',
 )
 RULE = ("cosched: every schedule of each 2-3 thread token-discipline script over the real termdet_local module with at most b "
         "preemptions (scheduling points = every instrumented access to tp->nb_tasks, tp->nb_pending_actions, tp->tdm.monitor, "
@@ -11,34 +11,24 @@ RULE = ("cosched: every schedule of each 2-3 thread token-discipline script over
         "the explored schedule tree; outcomes = (thread and script step that ran the callback, sequence of polled states)")
 ASSUME = ["sequential consistency at instrumented accesses (no weak-memory effects)",
           "gcc -fsanitize=thread instrumentation reports every access to the watched words",
-          "callers respect the module's usage contract (token discipline; set_* by the sole owner of the counter); "
-          "leg 'preready' relaxes it to 'work may also be added by anybody while the taskpool is not yet ready'"]
+          "callers respect the module's usage contract (token discipline after ready(); set_* by the sole owner of the counter)"]
 SRC = ['termdet_h.c']
-KF_ID = 'C10-stale-zero-before-ready'
 def _exes(ctx):
     return (ctx.compile('hk-shm', 'termdet', SRC, engine='cosched', cflags=['-DLEG=1']),
             ctx.compile('hk-shm', 'termdet-preready', SRC, engine='cosched', cflags=['-DLEG=2']))
-def _known():
-    import vlib
-    # recorded-but-not-repaired entries only; a 'fixed' entry means the tree must simply pass
-    return any(f.get('id') == KF_ID and 'fix' not in json.dumps(f).lower() for f in vlib.known_findings())
 def check(ctx):
-    e1, e2 = _exes(ctx)
-    legs = os.environ.get('C10_LEGS', 'contract,preready').split(',')
-    env = dict(os.environ); env['C10_KNOWN_FINDING'] = '1' if _known() else '0'
     import vlib
+    e1, e2 = _exes(ctx)
+    q = ctx.tier == 'quick'
+    env = dict(os.environ); env['C10_QUICK'] = '1' if q else '0'
     def run(exe, bound, deadline, label):
         args = ['--bound', str(bound), '--scenario', 'all', '--jobs', str(vlib.NJOBS), '--outdir', vlib.OUT, '--deadline', str(deadline)]
         ctx.run_engine(exe, args, label=label, timeout=deadline + 600, env=env)
-    q = ctx.tier == 'quick'
-    if 'contract' in legs:
-        run(e1, 2 if q else 3, 60 if q else 840, 'contract')
-    if 'preready' in legs:
-        run(e2, 2 if q else 3, 20 if q else 240, 'preready')
+    run(e1, 2 if q else 3, 60 if q else 780, 'contract')     # strict token discipline (DESIGN.md scripts)
+    run(e2, 2 if q else 3, 25 if q else 300, 'preready')     # work added before ready() without holding a unit (DTD pattern)
     return ctx.finish(RULE, ASSUME)
 def replay(ctx, path, obj):
     import subprocess
     e1, e2 = _exes(ctx)
-    env = dict(os.environ); env['C10_KNOWN_FINDING'] = '1' if _known() else '0'
     exe = e2 if 'preready' in obj.get('harness', '') else e1
-    return subprocess.call([exe, '--replay', path], env=env)
+    return subprocess.call([exe, '--replay', path])
